@@ -180,3 +180,56 @@ Proof.
     rewrite gen_block_exps, gen_block_code; eexists; eexists; reflexivity.
 Qed.
 End M.
+
+(* ---------- the guards of the generator change nothing where no guard applies ---------- *)
+Lemma guard_noeol_id : forall t, strip_suffix S_NOEOL t = None -> guard_noeol t = t.
+Proof. intros t H. unfold guard_noeol. rewrite H. reflexivity. Qed.
+(* the premise of C09_line_round_trip: an escaped rendering does not itself end in ` (no-eol)` *)
+Definition no_suffix_collision (m : mode) (line : list N) : Prop :=
+  has_unprintable m (trim_newlines line) = true -> strip_suffix S_NOEOL (escaped_printable m (trim_newlines line)) = None.
+Lemma written_same : forall m line, no_suffix_collision m line -> written_line m line = expectation_line m line.
+Proof.
+  intros m line H. unfold written_line, expectation_line, no_suffix_collision in *. cbv zeta.
+  destruct (has_unprintable m (trim_newlines line)) eqn:E; [|reflexivity]. rewrite (guard_noeol_id _ (H eq_refl)). reflexivity.
+Qed.
+Lemma guarded_same : forall first cram m line, no_suffix_collision m line ->
+  (first = true -> starts_with P_GT (expectation_line m line) = false) ->
+  (cram = true -> starts_with P_DOLLAR (expectation_line m line) = false) ->
+  guarded_line first cram m line = expectation_line m line.
+Proof.
+  intros first cram m line Hn Hg Hd. unfold guarded_line. cbv zeta. rewrite (written_same m line Hn).
+  destruct first, cram; cbn [andb orb]; rewrite ?(Hg eq_refl), ?(Hd eq_refl); reflexivity.
+Qed.
+Lemma guarded_lines_same : forall cram m lines, Forall (no_suffix_collision m) lines ->
+  (match lines with l :: _ => starts_with P_GT (expectation_line m l) = false | [] => True end) ->
+  (cram = true -> Forall (fun l => starts_with P_DOLLAR (expectation_line m l) = false) lines) ->
+  guarded_lines cram m lines = map (expectation_line m) lines.
+Proof.
+  intros cram m lines Hn Hg Hd. destruct lines as [|l r]; [reflexivity|]. cbn [guarded_lines map].
+  apply Forall_cons_iff in Hn. destruct Hn as [Hl Hr].
+  assert (Dl: cram = true -> starts_with P_DOLLAR (expectation_line m l) = false).
+  { intros C. specialize (Hd C). apply Forall_cons_iff in Hd. tauto. }
+  rewrite (guarded_same true cram m l Hl (fun _ => Hg) Dl). apply f_equal.
+  apply map_ext_in. intros x Hx. apply guarded_same.
+  - rewrite Forall_forall in Hr. exact (Hr x Hx).
+  - discriminate.
+  - intros C. specialize (Hd C). apply Forall_cons_iff in Hd. destruct Hd as [_ Hd]. rewrite Forall_forall in Hd. exact (Hd x Hx).
+Qed.
+(* so the documents with guards are the documents of the read-back theorems wherever their premises hold *)
+Lemma gen_cram_doc_g_same : forall m title cmd conts lines code, Forall (no_suffix_collision m) lines ->
+  (match lines with l :: _ => starts_with P_GT (expectation_line m l) = false | [] => True end) ->
+  Forall (fun l => starts_with P_DOLLAR (expectation_line m l) = false) lines ->
+  gen_cram_doc_g m title cmd conts lines code = gen_cram_doc m title cmd conts lines code.
+Proof.
+  intros m title cmd conts lines code Hn Hg Hd. unfold gen_cram_doc_g, gen_cram_doc, gen_cram_block.
+  rewrite (guarded_lines_same true m lines Hn Hg (fun _ => Hd)). rewrite map_map. reflexivity.
+Qed.
+(* (a line that starts with `$ ` is guarded in Markdown documents too: the lines may end up in a Cram document through a conversion) *)
+Lemma gen_md_doc_g_same : forall m title cmd conts lines code, Forall (no_suffix_collision m) lines ->
+  (match lines with l :: _ => starts_with P_GT (expectation_line m l) = false | [] => True end) ->
+  Forall (fun l => starts_with P_DOLLAR (expectation_line m l) = false) lines ->
+  gen_md_doc_g m None title cmd conts lines code = gen_md_doc m title cmd conts lines code.
+Proof.
+  intros m title cmd conts lines code Hn Hg Hd. unfold gen_md_doc_g, gen_md_doc, gen_body_g, gen_body.
+  rewrite (guarded_lines_same true m lines Hn Hg (fun _ => Hd)). rewrite map_map. reflexivity.
+Qed.
